@@ -107,7 +107,7 @@ def enumerate_cases(tier, seed):
     quick = tier == "quick"
     cases = []
     if quick:
-        shapes = [[2, 3], [4, 4], [3, 2, 4], [3, 3, 3]]
+        shapes = [[2, 3], [4, 4], [3, 2, 4], [3, 3, 3], [4, 4, 4]]
         kinds = [("spd", 1), ("dd", 2), ("lap", 0)]
         eps_list = [1e-4, 1e-8]
         rbs = [2]
@@ -139,7 +139,7 @@ def enumerate_cases(tier, seed):
 def bound(tier, seed):
     if tier == "quick":
         return ("C12 quick: torchtt.solvers.amen_solve(A,b,eps,x0,preconditioner,max_full,local_solver,use_cpp=False) with "
-                "shapes N in {[2,3],[4,4],[3,2,4],[3,3,3]}; operators {spd: round(I + 0.3*(B+B^T)/||B+B^T||_F) with B random "
+                "shapes N in {[2,3],[4,4],[3,2,4],[3,3,3],[4,4,4]}; operators {spd: round(I + 0.3*(B+B^T)/||B+B^T||_F) with B random "
                 "TT-matrix of rank 1; dd: round(I + 0.3*B/||B||_F) with B random non-symmetric of rank 2; lap: "
                 "sum_k I x..x tridiag(-1,2,-1) x..x I}; rhs b random TT of rank 2; eps in {1e-4,1e-8}; x0 in {None, "
                 "torchtt.random rank 2}; preconditioner in {None,'c','r'} x max_full in {0,500} x local_solver in {1,2} (all "
